@@ -28,8 +28,9 @@
 (* violates C07 stops being a behaviour at exactly the offending line.        *)
 EXTENDS Pipeline, TraceCommon, SequencesExt
 
-VARIABLES l, cfg, census, dev      \* dev: known deviations taken in the current attempt
-tvars == <<vars, l, cfg, census, dev>>
+VARIABLES l, cfg, census, dev,     \* dev: known deviations taken in the current attempt
+          maybe                    \* acknowledged points that were still on the ingest side when StopTask was requested
+tvars == <<vars, l, cfg, census, dev, maybe>>
 
 Ln == Trace[l]
 IsEv(e) == l <= Len(Trace) /\ Ln.ev = e /\ l' = l + 1
@@ -55,9 +56,9 @@ BlankWt(r) == [w \in Waiters |-> IF w <= r.waiters THEN [at |-> "wait", i |-> Le
 
 TrInit ==
     /\ Len(Trace) >= 1 /\ Trace[1].ev = "Reset"
-    /\ l = 2 /\ HWInit /\ cfg = Trace[1] /\ census = "none" /\ dev = {}
+    /\ l = 2 /\ HWInit /\ cfg = Trace[1] /\ census = "none" /\ dev = {} /\ maybe = {}
     /\ topo = TopoOf(Trace[1]) /\ kind = Trace[1].kind
-    /\ next = 1 /\ wp = EdgeNew /\ wclosed = FALSE /\ fk = [at |-> "idle", m |-> 0]
+    /\ next = 1 /\ wp = EdgeNew /\ wclosed = FALSE /\ fk = [at |-> "idle", m |-> 0, e |-> FALSE]
     /\ lock = "free" /\ sdel = FALSE /\ E = [e \in 1..MaxE |-> EdgeNew]
     /\ pc = BlankPc(TopoOf(Trace[1]))
     /\ cur = [n \in 1..MaxN |-> 0] /\ fi = [n \in 1..MaxN |-> 1] /\ nerr = [n \in 1..MaxN |-> FALSE]
@@ -71,9 +72,9 @@ TrInit ==
 
 TrReset ==
     /\ IsEv("Reset")
-    /\ cfg' = Ln /\ census' = "none" /\ dev' = {}
+    /\ cfg' = Ln /\ census' = "none" /\ dev' = {} /\ maybe' = {}
     /\ topo' = TopoOf(Ln) /\ kind' = Ln.kind
-    /\ next' = 1 /\ wp' = EdgeNew /\ wclosed' = FALSE /\ fk' = [at |-> "idle", m |-> 0]
+    /\ next' = 1 /\ wp' = EdgeNew /\ wclosed' = FALSE /\ fk' = [at |-> "idle", m |-> 0, e |-> FALSE]
     /\ lock' = "free" /\ sdel' = FALSE /\ E' = [e \in 1..MaxE |-> EdgeNew]
     /\ pc' = BlankPc(TopoOf(Ln))
     /\ cur' = [n \in 1..MaxN |-> 0] /\ fi' = [n \in 1..MaxN |-> 1] /\ nerr' = [n \in 1..MaxN |-> FALSE]
@@ -93,6 +94,10 @@ TrAccept ==
     /\ IsEv("Accept")
     /\ sp.at = "idle" \/ (sp.at = "wait" /\ kind = "close")
     /\ accepted' = accepted \cup RangeSet(Ln.seqs)
+    \* Overflow scenarios (the forking goroutine parked in forkPoint -> Collect on the task's full source edge when
+    \* StopTask/DeleteTask is requested): `seqs` = Collect had completed (Pipeline: ForkCollect done, accepted);
+    \* `maybe` = acknowledged but still in the forking goroutine's hand / the ingest edge (Pipeline: fk.m, wp)
+    /\ maybe' = maybe \cup (IF Has(Ln, "maybe") THEN RangeSet(Ln.maybe) ELSE {})
     /\ UNCHANGED <<topo, kind, Internal, pc, wb, hq, rd, mclosed, sp, delivered, refused, failed, cfg, census, dev, wt>>
 
 \* a node returned an error because the driver made it (poison point / injected panic): from here on
@@ -100,7 +105,7 @@ TrAccept ==
 TrNodeFailed ==
     /\ IsEv("NodeFailed") /\ Ln.injected
     /\ failed' = TRUE
-    /\ UNCHANGED <<topo, kind, Internal, pc, wb, hq, rd, mclosed, sp, accepted, delivered, refused, cfg, census, dev, wt>>
+    /\ UNCHANGED <<topo, kind, Internal, pc, wb, hq, rd, mclosed, sp, accepted, delivered, refused, cfg, census, dev, wt, maybe>>
 
 \* A node that fails although nothing was injected failed BECAUSE of the stop: there is no action for
 \* that (a graceful stop must not make nodes fail), the line is rejected.
@@ -110,7 +115,7 @@ TrStopCall ==
     /\ IsEv("StopCall")
     /\ sp.at = "idle"
     /\ sp' = [at |-> "wait", i |-> 0]
-    /\ UNCHANGED <<topo, kind, Internal, pc, wb, hq, rd, mclosed, accepted, delivered, refused, failed, cfg, census, dev, wt>>
+    /\ UNCHANGED <<topo, kind, Internal, pc, wb, hq, rd, mclosed, accepted, delivered, refused, failed, cfg, census, dev, wt, maybe>>
 
 OutName(n) == CHOOSE o \in DOMAIN cfg.topo.outs : cfg.topo.outs[o] = n
 IsOut(n) == \E o \in DOMAIN cfg.topo.outs : cfg.topo.outs[o] = n
@@ -122,7 +127,12 @@ TrStopReturn ==
     /\ sp' = [at |-> "stopped", i |-> 0]
     /\ delivered' = [n \in 1..MaxN |-> IF IsOut(n) THEN RangesSeq(Ln.delivered[OutName(n)]) ELSE <<>>]
     /\ refused' = Ln.refused
-    /\ UNCHANGED <<topo, kind, Internal, pc, wb, hq, rd, mclosed, accepted, failed, cfg, census, dev, wt>>
+    \* what the task was still handed of the points that were on the ingest side when the stop was requested
+    \* (the Collect the stop had to wait for) is the task's as well: a prefix of them, in every output
+    /\ LET got == UNION { RangeSet(Ln.delivered[o]) : o \in DOMAIN Ln.delivered } \cap maybe IN
+       /\ accepted' = accepted \cup got
+       /\ \A p \in got : \A q \in maybe : q < p => q \in got
+    /\ UNCHANGED <<topo, kind, Internal, pc, wb, hq, rd, mclosed, failed, cfg, census, dev, wt, maybe>>
     /\ NothingInvented'
     /\ NoAcceptedLoss'
 
@@ -139,7 +149,7 @@ TrStopHungLoopback ==
     /\ PrintT(<<"KF-HIT", "loopback-stop-deadlock">>)
     /\ sp' = [at |-> "hung", i |-> 0]
     /\ dev' = dev \cup {"loopback-stop-deadlock"}
-    /\ UNCHANGED <<topo, kind, Internal, pc, wb, hq, rd, mclosed, accepted, delivered, refused, failed, cfg, census, wt>>
+    /\ UNCHANGED <<topo, kind, Internal, pc, wb, hq, rd, mclosed, accepted, delivered, refused, failed, cfg, census, wt, maybe>>
 
 \* The goroutines that were already blocked in ExecutingTask.Wait() when the stop was requested (the task
 \* store keeps one per task): once the task has stopped each of them has returned - node.finished/err are
@@ -151,7 +161,7 @@ TrWaiters ==
                                   THEN IF Ln.returned[w] THEN [at |-> "done", i |-> 0, res |-> Ln.errIds[w]]
                                        ELSE [at |-> "wrecv", i |-> Len(topo.kinds), res |-> 0]
                                   ELSE [at |-> "done", i |-> 0, res |-> Ln.errIds[1]]]
-    /\ UNCHANGED <<topo, kind, Internal, pc, wb, hq, rd, mclosed, sp, accepted, delivered, refused, failed, cfg, census, dev>>
+    /\ UNCHANGED <<topo, kind, Internal, pc, wb, hq, rd, mclosed, sp, accepted, delivered, refused, failed, cfg, census, dev, maybe>>
     /\ \A w \in Waiters : wt'[w].at = "done"
     /\ WaitersAgree'
 
@@ -180,13 +190,16 @@ TrCensus ==
                                      ELSE NoRd]
        /\ mclosed' = [n \in 1..MaxN |-> n \in Nodes /\ NK(n) = "union" /\ SigCollector \notin L]
     /\ census' = "done"
-    /\ UNCHANGED <<topo, kind, Internal, sp, accepted, delivered, refused, failed, cfg, dev, wt>>
+    /\ UNCHANGED <<topo, kind, Internal, sp, accepted, delivered, refused, failed, cfg, dev, wt, maybe>>
     /\ AllDone'
 
+\* The task next door (same db/rp, never stopped before the environment was closed gracefully) was offered the
+\* same points: stopping ONE task while the ingest side was blocked on it must not cost the neighbour anything.
 TrEnd ==
     /\ IsEv("End")
     /\ sp.at \in {"stopped", "hung"}
-    /\ UNCHANGED <<vars, cfg, census, dev>>
+    /\ Has(Ln, "neighbour") => RangeSet(Ln.acked) \subseteq RangeSet(Ln.neighbour)
+    /\ UNCHANGED <<vars, cfg, census, dev, maybe>>
 
 TrNext == TrReset \/ TrAccept \/ TrNodeFailed \/ TrStopCall \/ TrStopReturn \/ TrStopHungLoopback \/ TrWaiters
           \/ TrCensus \/ TrEnd
